@@ -196,6 +196,41 @@ func (p *c12) copyWhileChanging(x *res, a, b string) {
 		"minus+copy": {Actions: []refmodel.Action{{Kind: "SET", Path: refmodel.P("n"), RHS: &refmodel.UExpr{Kind: "minus", Kids: []*refmodel.UExpr{up(refmodel.P("n")), uv(":v")}}}, {Kind: "SET", Path: refmodel.P("p"), RHS: up(refmodel.P("n"))}}},
 		"ifne-copy+add": {Actions: []refmodel.Action{{Kind: "SET", Path: refmodel.P("p"), RHS: &refmodel.UExpr{Kind: "ifne", Path: refmodel.P("n"), Kids: []*refmodel.UExpr{uv(":v")}}}, {Kind: "ADD", Path: refmodel.P("n"), RHS: uv(":v")}}},
 	}
+	// one placeholder used twice: by an arithmetic action and by an action that merely stores it (or adds it to an
+	// attribute that does not exist yet) - the second use reads the REQUEST's value, digit for digit
+	arith := func(kind string, l, r *refmodel.UExpr) *refmodel.UExpr { return &refmodel.UExpr{Kind: kind, Kids: []*refmodel.UExpr{l, r}} }
+	stores := map[string]*refmodel.Update{
+		"plus-pv+store":  {Actions: []refmodel.Action{{Kind: "SET", Path: refmodel.P("n"), RHS: arith("plus", up(refmodel.P("n")), uv(":v"))}, {Kind: "SET", Path: refmodel.P("lastv"), RHS: uv(":v")}}},
+		"minus-pv+store": {Actions: []refmodel.Action{{Kind: "SET", Path: refmodel.P("n"), RHS: arith("minus", up(refmodel.P("n")), uv(":v"))}, {Kind: "SET", Path: refmodel.P("lastv"), RHS: uv(":v")}}},
+		"plus-vp+store":  {Actions: []refmodel.Action{{Kind: "SET", Path: refmodel.P("n"), RHS: arith("plus", uv(":v"), up(refmodel.P("n")))}, {Kind: "SET", Path: refmodel.P("lastv"), RHS: uv(":v")}}},
+		"store+plus-pv":  {Actions: []refmodel.Action{{Kind: "SET", Path: refmodel.P("lastv"), RHS: uv(":v")}, {Kind: "SET", Path: refmodel.P("n"), RHS: arith("plus", up(refmodel.P("n")), uv(":v"))}}},
+		"plus-pv+add-new": {Actions: []refmodel.Action{{Kind: "SET", Path: refmodel.P("n"), RHS: arith("plus", up(refmodel.P("n")), uv(":v"))}, {Kind: "ADD", Path: refmodel.P("lastv"), RHS: uv(":v")}}},
+		"plus-pv+default": {Actions: []refmodel.Action{{Kind: "SET", Path: refmodel.P("n"), RHS: arith("plus", up(refmodel.P("n")), uv(":v"))}, {Kind: "SET", Path: refmodel.P("lastv"), RHS: &refmodel.UExpr{Kind: "ifne", Path: refmodel.P("nosuch"), Kids: []*refmodel.UExpr{uv(":v")}}}}},
+		"plus-pv+plus-pv": {Actions: []refmodel.Action{{Kind: "SET", Path: refmodel.P("n"), RHS: arith("plus", up(refmodel.P("n")), uv(":v"))}, {Kind: "SET", Path: refmodel.P("m", "x"), RHS: uv(":v")}, {Kind: "SET", Path: refmodel.P("lastv"), RHS: uv(":v")}}},
+	}
+	snames := []string{}
+	for k := range stores {
+		snames = append(snames, k)
+	}
+	sort.Strings(snames)
+	for _, kind := range snames {
+		u := stores[kind]
+		it := val.Item{"n": val.Num(a), "m": val.Map(map[string]val.V{}), "z": val.Str("bystander")}
+		values := val.Item{":v": val.Num(b)}
+		got, msg, site, after := updateDirect(u.Render(map[string]string{}, rrCanon), nil, it, values)
+		x.r.Evals++
+		x.r.Counters["placeholder_used_twice"]++
+		if got == "panic" {
+			x.viol("runtime-panic", site, fmt.Sprintf("%s with n=%s :v=%s: panic %s", kind, a, b, msg), map[string]interface{}{"a": a, "b": b, "kind": kind})
+			continue
+		}
+		if got != "ok" {
+			continue // the sum does not fit the number range: the arithmetic part is judged by the arith rules
+		}
+		if !val.Equal(after["lastv"], val.Num(b)) {
+			x.viol("second-use-of-a-placeholder", kind, fmt.Sprintf("%s with n=%s :v=%s: the attribute that only stores :v is %s, want %s", kind, a, b, after["lastv"].Canon(), b), map[string]interface{}{"a": a, "b": b, "kind": kind, "got": after["lastv"]})
+		}
+	}
 	names := []string{}
 	for k := range forms {
 		names = append(names, k)
